@@ -76,9 +76,12 @@ class SxContract:
     def patches(self):
         return []
 
+    float_replay = False    # opt-in: the clauses of ensures() are meaningful on float64 values too (no identity tests on symbols)
+
     def native(self, env, inputs):
-        """default replay on the real code: the contract itself is re-run on float64 inputs built from the point (see generic_native)"""
-        return generic_native(self, env)
+        """default replay on the real code: the contract itself is re-run on float64 inputs built from the point (see
+        generic_native) -- only for contracts that declare float_replay (validated on the unchanged tree by the size ladder)"""
+        return generic_native(self, env) if self.float_replay else None
 
     tie_variants = False    # opt-in (piecewise-constant functions whose boundaries are part of the contract): see native_variants
 
